@@ -376,8 +376,11 @@ def syntax_check(js, text, method):
 # oracle on one canonical case
 
 def cfg_of(case):
-    return outlib.config(case['method'], case.get('strip', False), case.get('cache', True), case.get('doctype'),
-                         case.get('drop_xml_decl', True))
+    c = outlib.config(case['method'], case.get('strip', False), case.get('cache', True), case.get('doctype'),
+                      case.get('drop_xml_decl', True))
+    if case.get('nsprefixes'):
+        c['nsprefixes'] = True
+    return c
 
 
 def preserve_mask(js, method):
@@ -466,6 +469,9 @@ def shard(arg):
                     continue
                 case = {'stream': js, 'method': method, 'strip': strip, 'cache': rng.random() < 0.7,
                         'doctype': dt, 'drop_xml_decl': dropd}
+                if method == 'xhtml' and rng.random() < 0.25:
+                    case['nsprefixes'] = True
+                    res.count('option:namespace_prefixes')
                 if not why:
                     res.evaluations += 1
                     res.count('oracle:%s:%s' % (method, 'strip' if strip else 'nostrip'))
